@@ -1073,7 +1073,7 @@ void registerAnnotEngine()
     e.generate = generate;
     e.execute = execute;
     e.simplify = simplify;
-    e.timeoutS = 30;
+    e.timeoutS = 12;
     e.crashProperty = "C13";
     registerEngine(e);
 }
